@@ -259,6 +259,11 @@ func Verify(pub *PublicKey, hash []byte, r, s *big.Int) bool {
  */
 func Encrypt(pub *PublicKey, data []byte, random io.Reader, mode int) ([]byte, error) {
 	length := len(data)
+	if length == 0 {
+		// kdf(0, ...) never yields a usable key stream, so the loop below
+		// would retry forever; Decrypt rejects an empty C2 as well.
+		return nil, errors.New("Encrypt: plaintext is empty")
+	}
 	for {
 		c := []byte{}
 		curve := pub.Curve
